@@ -17,6 +17,7 @@ EXTENDS Ref, TLC, Json, IOUtils
 
 Defs == ndJsonDeserialize(IOEnv.DEFS)
 Rec  == ndJsonDeserialize(IOEnv.TRACE)
+CheckRet == IOEnv.CHECKRET # "0"     \* long adversarial traces are validated without the RefNext conjunct
 
 VARIABLES l,        \* next event to consume
           d, src, partial,
@@ -86,13 +87,15 @@ Trivia == /\ Is("trivia") /\ inCall
 
 (* the driver's record of what next() returned, with the span observed right after *)
 Ret == /\ Is("ret") /\ inCall
-       /\ LET a == RefNext(D, src, partial, callStart) IN
-          /\ E.s = tstart /\ E.t = tend                \* the hooks saw every change of the span
-          /\ \/ /\ E.k = a.k /\ E.s = a.start /\ E.t = a.end
-                /\ (a.k = "tok" => E.name = D.vname[a.leaf])
-             \/ /\ a.weak /\ E.k = "none" /\ E.s = E.t  \* look-around: None one byte early
-                /\ E.s >= callStart /\ E.s <= a.start
-          /\ IsBoundary(D, src, E.s) /\ IsBoundary(D, src, E.t)
+       /\ E.s = tstart /\ E.t = tend
+       /\ IF CheckRet
+          THEN LET a == TLCEval(RefNext(D, src, partial, callStart)) IN
+               /\ IF E.k = a.k /\ E.s = a.start /\ E.t = a.end
+                  THEN (a.k = "tok" => E.name = D.vname[a.leaf])
+                  ELSE /\ a.weak /\ E.k = "none" /\ E.s = E.t       \* look-around: None one byte early
+                       /\ E.s >= callStart /\ E.s <= a.start
+               /\ IsBoundary(D, src, E.s) /\ IsBoundary(D, src, E.t)
+          ELSE TRUE
        /\ inCall' = FALSE
        /\ l' = l + 1
        /\ UNCHANGED <<d, src, partial, tstart, tend, callStart, attStart, lastOff, maxEnd, nreads>>
